@@ -2884,6 +2884,7 @@ static int scan_delim_string(struct scanner_s *scanner) {
                         /* test for a third delimiter character */
                         if (c == delim) {
                             scanner->next_char += 1;
+                            POSN_INCCOLUMN(scanner, 1);
                             return scan_triple_delim_string(scanner);
                         }
                     }
@@ -2961,6 +2962,8 @@ static int scan_triple_delim_string(struct scanner_s *scanner) {
             } else {
                 delim_count = 0;
                 if (CLASS_OF(c, scanner) == EOL_CLASS) {
+                    /* SCAN_UCHAR counted the terminator itself, which is not part of the line's length */
+                    POSN_INCCOLUMN(scanner, -1);
                     HANDLE_EOL(scanner, c, sol);
                 } else {
                     sol = 0;
@@ -3027,6 +3030,8 @@ static int scan_text(struct scanner_s *scanner) {
                     }
                     break;
                 case EOL_CLASS:
+                    /* SCAN_UCHAR counted the terminator itself, which is not part of the line's length */
+                    POSN_INCCOLUMN(scanner, -1);
                     /* HANDLE_EOL(scanner, c, sol); */
                     do {
                         struct scanner_s *_s_eol = (scanner);
